@@ -170,6 +170,27 @@ theorem C08_accepted_instance_replays (i : Inst) (sizes : List Nat)
   simp only [kindsOk, List.all_eq_true, decide_eq_true_eq] at hk
   exact hk
 
+/-- … and from any starting partition (`init(starting_step=k)`): a read returns the scheduled message if its producer ran
+since the start and otherwise the default output the buffer was initialised with, never another message. The hypotheses
+are decided once, on the trace from partition 0. -/
+theorem C08_accepted_instance_replays_from_any_start (i : Inst) (sizes : List Nat) (startPart : Nat)
+    (hk : kindsOk i sizes.length = true) (h : sizedOk (traceOf i 0) sizes.length sizes = true) :
+    replayOk i sizes startPart = true := by
+  apply replayOk_of_sizedOk_from i sizes startPart _ h
+  simp only [kindsOk, List.all_eq_true, decide_eq_true_eq] at hk
+  exact hk
+
+/-- the trace form of the same statement: the hypotheses speak about the whole trace, the execution starts after `pre0` -/
+theorem C08_trace_end_to_end_from (T : List Gen) (B : List Nat) (strict : Bool)
+    (hcons : ∀ κ, ∃ n, wseqs κ (allWrites T) = consec 0 n)
+    (hge : ∀ g ∈ T, ∀ r ∈ g.reads, -1 ≤ r.2.2)
+    (hdep : ∀ pre g post, T = pre ++ g :: post → ∀ r ∈ g.reads, 0 ≤ r.2.2 → r.2.2 ∈ wseqs r.2.1 (allWrites pre))
+    (hsize : ∀ g ∈ T, ∀ r ∈ g.reads, ∃ b, B[r.2.1]? = some b ∧ 0 < b ∧
+      bufSize (minInOf r.1 r.2.1 T) (maxOutOf r.2.1 T) ≤ b)
+    (pre0 rest0 : List Gen) (hT0 : T = pre0 ++ rest0) (hstrict : strict = true → pre0 = []) :
+    traceOk strict (B.map Ring.init) rest0 = true :=
+  traceOk_of_sized_from T B strict hcons hge hdep hsize pre0 rest0 hT0 hstrict
+
 /-- non-vacuity: the demo instance of C07 (producer 1 → supervisor 0) with buffers of size 2 is accepted -/
 example : sizedOk (traceOf ⟨0, 1, 2, true, [], [⟨0, 1, 0, 0, true, 0, 0, 5, []⟩, ⟨1, 0, 1, 0, true, 0, 7, 9, [(1, [0], [5], [6])]⟩]⟩ 0) 2 [1, 1] = true := by
   decide
